@@ -651,7 +651,7 @@ func init() {
 	exec := execMapper
 	tys := []string{"", "counter", "gauge"}
 	P := globPats([]string{"a", "b", "*"}, 3)
-	N := globPats([]string{"a", "b", "z"}, 3)
+	N := globPats([]string{"a", "b", "z", "*"}, 3) // "*" as a literal component of a metric name
 	type variant struct{ pat, ty string }
 	var variants []variant
 	for _, p := range P {
@@ -775,7 +775,7 @@ func init() {
 		}
 		c04.Exhaustive = true
 		comps := []string{"a", "b", "c", "dd", "e-1", "*", "*"}
-		ncomps := []string{"a", "b", "c", "dd", "e-1", "zz", ""}
+		ncomps := []string{"a", "b", "c", "dd", "e-1", "zz", "", "*"}
 		for i := 0; i < nr; i++ {
 			rs := randomRules(r, 3+r.Intn(10), comps, 5)
 			cfg := mkCfg(rs, false)
@@ -865,7 +865,7 @@ func init() {
 			}
 		}
 		comps := []string{"a", "b", "c", "dd", "*", "*"}
-		ncomps := []string{"a", "b", "c", "dd", "zz"}
+		ncomps := []string{"a", "b", "c", "dd", "zz", "*"}
 		for i := 0; i < nr; i++ {
 			rs := randomRules(r, 3+r.Intn(10), comps, 4)
 			for k := 0; k < 3; k++ {
@@ -889,7 +889,7 @@ func init() {
 			n = 150000
 		}
 		lits := []string{"a", "x_", "-", " ", "%", ":", "9", "foo", "_", "%s", "b:", "a", "x_", "-", " ", ":", "9", "foo", "_", ".", "B", "%%", "%d", "$", "$$", "}", "{", "$x", "${ab}", "é", "×", "α", "€", "ü9"}
-		capv := []string{"foo", "é", "a-b", "x y", "1", "%", "€:", "A_B", "", "q$", "{1}"}
+		capv := []string{"foo", "é", "a-b", "x y", "1", "%", "€:", "A_B", "", "q$", "{1}", "*"}
 		corpus := [][2]string{{"$1$2", "*.*"}, {"100%-$1", "*"}, {"$1-$11", "*.a"}, {"${1}_x_$2", "*.*"}, {"$1a", "*"}, {"$0", "*"}, {"x", "a.*"}, {"$3", "*.*"}, {"a$", "*"}, {"${1", "*"}, {"$", "a"}, {"$$1", "*"}, {"$$", "*"}, {"$1$$2", "*.*"}, {"$1$x$2", "*.*"}, {"$1}", "*"}, {"${1}}", "*"}, {"$${1}", "*"}, {"$1é", "*"}, {"${1é}", "*"}, {"${1}é", "*"}, {"é$1-", "*"}, {"$1×$2", "*.*"}, {"$é", "*"}, {"$1α", "*"}}
 		mk := func(tmpl, pat string, lblT []string) (*rawCfg, *rawCfg) {
 			g := rawRule{match: pat, name: "n_" + tmpl, help: "h0"}
@@ -1058,7 +1058,7 @@ func init() {
 			pool := cfgPool(r)
 			inv := invalidCfgs(r)
 			nnames := 2 + r.Intn(11)
-			ncomps := []string{"a", "b", "c", "z"}
+			ncomps := []string{"a", "b", "c", "z", "*"}
 			var names []string
 			for k := 0; k < nnames; k++ {
 				names = append(names, randomName(r, ncomps, 3))
